@@ -76,6 +76,8 @@ let parse_aop (pe : string -> 'a) tok : 'a aop =
   | ["AExpect"; i; n] -> AExpect (nat i, nat n)
   | ["ACompress"; i] -> ACompress (nat i)
   | ["ADrop"; i; n] -> ADrop (nat i, nat n)
+  | ["ASwap"; i; a; b] -> ASwap (nat i, nat a, nat b)
+  | ["AIter"; i] -> AIter (nat i)
   | _ -> failwith ("bad op " ^ tok)
 
 let parse_sop tok : sop =
@@ -108,6 +110,10 @@ let parse_sop tok : sop =
   | ["SStepBack"; i; n] -> SStepBack (nat i, nat n)
   | ["SReverse"; i; n] -> SReverse (nat i, nat n)
   | ["SInsertAt"; i; c; n] -> SInsertAt (nat i, n_of_string c, nat n)
+  | ["SIter"; i] -> SIter (nat i)
+  | ["SLast"; i] -> SLast (nat i)
+  | ["SIsEmpty"; i] -> SIsEmpty (nat i)
+  | ["SStreamOut"; i] -> SStreamOut (nat i)
   | _ -> failwith ("bad op " ^ tok)
 
 let parse_top tok : top =
@@ -139,6 +145,8 @@ let parse_top tok : top =
   | ["TGetString"; i] -> TGetString (nat i)
   | ["TGetStringView"; i] -> TGetStringView (nat i)
   | ["TInsertNull"; i] -> TInsertNull (nat i)
+  | ["TIter"; i] -> TIter (nat i)
+  | ["TStreamOut"; i] -> TStreamOut (nat i)
   | _ -> failwith ("bad op " ^ tok)
 
 let parse_vop tok : vop =
@@ -151,6 +159,9 @@ let parse_vop tok : vop =
   | ["VEqObj"; i; j] -> VEqObj (nat i, nat j)
   | ["VEqCstr"; i; l] -> VEqCstr (nat i, units l)
   | ["VIsEqual"; i; l] -> VIsEqual (nat i, units l)
+  | ["VIter"; i] -> VIter (nat i)
+  | ["VStreamOut"; i] -> VStreamOut (nat i)
+  | ["VIsEmpty"; i] -> VIsEmpty (nat i)
   | _ -> failwith ("bad op " ^ tok)
 
 let dump_with dumpf fmt w k = match dumpf w k with Ok l -> fmt l | Error _ -> "ERR"
